@@ -369,13 +369,59 @@ func Mul(a, b *Term) *Term {
 	return t
 }
 
+// Concat is string concatenation: operands stay in order, nested concatenations are flattened and adjacent
+// constants joined.
+func Concat(a, b *Term) *Term {
+	var parts []*Term
+	for _, x := range []*Term{a, b} {
+		if x.Op == "concat" {
+			parts = append(parts, x.Args...)
+		} else {
+			parts = append(parts, x)
+		}
+	}
+	var out []*Term
+	for _, p := range parts {
+		if n := len(out); n > 0 && isStrConst(out[n-1]) && isStrConst(p) {
+			out[n-1] = Const(constant.MakeString(constant.StringVal(out[n-1].C)+constant.StringVal(p.C)), p.Typ)
+			continue
+		}
+		out = append(out, p)
+	}
+	if len(out) == 1 {
+		return out[0]
+	}
+	return &Term{Op: "concat", Args: out}
+}
+
+func isStrConst(t *Term) bool {
+	return t.Op == OConst && t.C != nil && t.C.Kind() == constant.String
+}
+
 func isIntConst(t *Term) bool {
 	return t.Op == OConst && t.C != nil && t.C.Kind() == constant.Int
 }
 
 var cmpTok = map[string]token.Token{"<": token.LSS, "<=": token.LEQ, ">": token.GTR, ">=": token.GEQ, "==": token.EQL, "!=": token.NEQ}
 
+// NonNilGlobal, when set, says which package-level variables are known never to be nil (the module's
+// sentinel errors: initialised with errors.New and never reassigned, which separate rules establish).
+var NonNilGlobal func(obj types.Object) bool
+
+func isNilTerm(t *Term) bool { return t.Op == OConst && t.C == nil }
+
 func Bin(op string, a, b *Term) *Term {
+	if op == "==" || op == "!=" {
+		// nil compared with nil, or with a variable known never to be nil
+		if isNilTerm(a) && isNilTerm(b) {
+			return &Term{Op: OConst, C: constant.MakeBool(op == "=="), Typ: types.Typ[types.Bool]}
+		}
+		for _, pr := range [][2]*Term{{a, b}, {b, a}} {
+			if isNilTerm(pr[0]) && pr[1].Op == OGlobal && NonNilGlobal != nil && pr[1].Obj != nil && NonNilGlobal(pr[1].Obj) {
+				return &Term{Op: OConst, C: constant.MakeBool(op == "!="), Typ: types.Typ[types.Bool]}
+			}
+		}
+	}
 	// comparisons of two integer constants or two string constants fold
 	if tok, ok := cmpTok[op]; ok && a.Op == OConst && b.Op == OConst && a.C != nil && b.C != nil {
 		if (a.C.Kind() == constant.Int && b.C.Kind() == constant.Int) || (a.C.Kind() == constant.String && b.C.Kind() == constant.String) {
